@@ -206,7 +206,14 @@ def r07e(model: Model, rr: RuleResult):
             rr.bad(fi, nxt[0] if nxt else fi.node, f"runs are glyphs[start:end] but the next run starts at {short(nxt[0].value) if nxt else '?'}: the first glyph after every gap "
                    f"belongs to no strike and has no bitmap", construct=f"make_cbdt_table: next run starts at {short(nxt[0].value) if nxt else '?'}")
     else:
-        raise AnalysisError("make_cbdt_table: run extraction idiom not recognised")
+        strike_calls = [c for c in calls_in(fi, nested=True) if callee_tail(c) == "_make_cbdt_strike"]
+        loops = [st for st in ast.walk(fi.node) if isinstance(st, (ast.While, ast.For))]
+        in_loop = [c for c in strike_calls if any(any(x is c for x in ast.walk(lp)) for lp in loops)]
+        if strike_calls and not in_loop:
+            rr.bad(fi, strike_calls[0], "make_cbdt_table builds ONE strike for all colour glyphs: when their glyph ids have gaps (a coloured .notdef, blanks of a sequence between "
+                   "colour glyphs) the strike's index range covers glyphs that have no bitmap", construct="make_cbdt_table: single strike, no run splitting")
+        else:
+            raise AnalysisError("make_cbdt_table: run extraction idiom not recognised")
     mk = find_calls(fi, "_make_cbdt_strike")
     if mk and [norm(a) for a in mk[0].args] == ["config", "ttfont", "data_offset", "color_glyph_run"]:
         rr.ok("each run becomes one strike starting at the running data offset")
@@ -304,11 +311,18 @@ def r14a(model: Model, rr: RuleResult):
             rr.bad(fi, e.node, f"dimension error: {e.message} (px = pixels, fu = font units, em)", construct=f"{fn}: {short(e.node, 80)} :: {e.message}")
     # ppem = round(upem * pixel height / em height): the pieces
     p = model.func("bitmap_tables", "_pixels_to_funits")
-    t = " ".join(norm(st) for st in p.body)
-    if "funits = config.ascender - config.descender" in t and "return (bitmap_pixel_height, funits)" in t:
+    from ..dataflow import resolved_text
+    pcfg = cfg_of(p)
+    prets = [st for st in walk_body(p) if isinstance(st, ast.Return) and st.value is not None]
+    got = [resolved_text(pcfg, pcfg.node_for(st), st.value, p) for st in prets]
+    cp, hp = p.params[0], p.params[1]
+    if got == [f"({hp}, {cp}.ascender - {cp}.descender)"]:
         rr.ok("_pixels_to_funits = (bitmap pixel height, ascender - descender)")
+    elif len(got) == 1 and got[0].startswith(f"({hp}, ") and f"{cp}.ascender - {cp}.descender" in got[0]:
+        rr.bad(p, prets[0], f"the em height used for bitmaps is {got[0].split(', ', 1)[1][:-1]}, not ascender - descender: ppem, bearings and the pixel advance are scaled by a "
+               f"different height than the one BitmapMetrics and hmtx use (visible as soon as the extra term is non-zero)", construct=f"_pixels_to_funits: {got[0]}")
     else:
-        rr.bad(p, p.node, "pixel/unit ratio is not (bitmap height, ascender - descender)", construct="_pixels_to_funits body")
+        rr.bad_shape(p, p.node, f"pixel/unit ratio is {got}, expected (bitmap height, ascender - descender)", construct="_pixels_to_funits body")
     pp = model.func("bitmap_tables", "_ppem")
     if norm(pp.body[-1]) == "return round(config.upem * pixels / funits)":
         rr.ok("_ppem = round(upem x pixels / funits)")
